@@ -39,10 +39,8 @@ macro_rules! ctr_harness {
             let c = $cipher::new(nd::any());
             let iv: [u8; $b] = nd::any();
             let data: [u8; $len] = nd::any();
-            let p0: u8 = nd::pick(1);
-            nd::assume(p0 <= 2);
-            let off: u8 = nd::pick(($b - 1) as u8);
-            nd::assume((off as usize) < $b);
+            let p0: u8 = nd::pick_upto(1, 2);
+            let off: u8 = nd::pick_upto(($b - 1) as u8, ($b - 1) as u8);
             let mut s = <$ty>::from_core(InnerIvInit::inner_iv_init(&c, &iv.into()));
             let start: u64 = p0 as u64 * $b + off as u64;
             s.seek(start);
@@ -115,10 +113,8 @@ macro_rules! belt_harness {
             let c = $cipher::new(nd::any());
             let iv: [u8; 16] = nd::any();
             let data: [u8; $len] = nd::any();
-            let p0: u8 = nd::pick(1);
-            nd::assume(p0 <= 2);
-            let off: u8 = nd::pick(15);
-            nd::assume(off < 16);
+            let p0: u8 = nd::pick_upto(1, 2);
+            let off: u8 = nd::pick_upto(15, 15);
             let mut s = belt_ctr::BeltCtr::<&$cipher>::from_core(InnerIvInit::inner_iv_init(&c, &iv.into()));
             assert!(c.xs.get()[0] == iv);
             let s0 = u128::from_le_bytes(c.ys[0]);
@@ -191,13 +187,10 @@ macro_rules! cfbbuf_harness {
         pub fn $h() {
             let c = $cipher::new(nd::any());
             let iv0: [u8; $b] = nd::any();
-            let pos0: usize = nd::any::<u8>() as usize;
-            nd::assume(pos0 < $b);
+            let pos0: usize = nd::upto($b - 1);
             let mut e = <$ty>::from_state(&c, &iv0.into(), pos0);
-            let n: usize = nd::any::<u8>() as usize;
-            nd::assume(n <= $maxn);
-            let cut: usize = nd::any::<u8>() as usize;
-            nd::assume(cut <= n);
+            let n: usize = nd::upto($maxn);
+            let cut: usize = nd::upto(n);
             let data: [u8; $maxn] = nd::any();
             let mut buf = data;
             e.$call(&mut buf[..cut]);
@@ -248,12 +241,10 @@ pub fn ctr_limit_b4w2_n3() {
     let iv: [u8; 4] = nd::any();
     let mut s = ctr::Ctr32BE::<&L4w2>::from_core(ctr::CtrCore::inner_iv_init(&c, &iv.into()));
     let limit: u64 = (u32::MAX as u64) * 4;
-    let back: u64 = nd::any::<u8>() as u64;
-    nd::assume(back <= 9);
+    let back: u64 = nd::upto(9) as u64;
     let start = limit - back;
     assert!(s.try_seek(start).is_ok());
-    let len: usize = nd::any::<u8>() as usize;
-    nd::assume(len <= 12);
+    let len: usize = nd::upto(12);
     let data: [u8; 12] = nd::any();
     let mut buf = data;
     let r = s.try_apply_keystream(&mut buf[..len]);
